@@ -126,8 +126,8 @@ def trace_cfgs(rnd, inst, env, n, dw=()):
     perms = list(itertools.permutations(range(1, inst.nd + 1)))
     mm = int(env["GS"][1][0])
     if mm >= 1:
-        for order in sorted(dw)[:2]:
-            for t, scal in ((-1, "no"), (2, "no"), (4, "ncpl")):
+        for j, order in enumerate(sorted(dw)):
+            for t, scal in ((-1, "no"), (2, "no"), (4, "ncpl"))[:3 if j < 2 else 1]:
                 out.append({"alg": "GS", "w": 2, "ord": list(order), "t": t, "maxit": mm, "scal": scal,
                             "warm": False, "runs": 1})
     n += len(out)
@@ -278,6 +278,13 @@ def sample_confs(rnd, case, n, cover):
     inst, _, ngroups, dw, allstrong = case
     perms = list(itertools.permutations(range(1, inst.nd + 1)))
     out = []
+    if inst.fam == "nil":
+        # finite termination makes successive residuals coincide: the delta-based accelerations are
+        # always visited there at relaxation 1 (D0602 / D0603 were found on these)
+        for acc in ("Aitken", "Secant"):
+            order = rnd.choice(perms)
+            out.append({"cls": "MDAJacobi", "kind": "J", "inner": None, "acc": acc, "relax": 1.0, "scal": "ncpl",
+                        "ord": list(order), "warm": False, "p": 6, "maxit": 200, "gs_delayed_weak": False})
     for _ in range(n):
         pick = None
         if cover:
@@ -353,14 +360,14 @@ def run(ck: Check):
     else:
         profiles, seeds = (22, 12, 222), range(1, 17)
         ex = dict(ws=(1, 2), tols=(2, 6), maxits=(2,), scals=("no", "init", "comp"))
-        parts, n_traces, n_runs = 1, 300, 450
+        parts, n_traces, n_runs = 1, 250, 380
     base = dict(fams=("nil", "con"), profiles=profiles, seeds=list(seeds))
     spec = "SPECIFICATION Spec\nCHECK_DEADLOCK FALSE\n" + inv_lines()
     acts = ("Exec", "Single", "EndPre", "EndSweep", "Stop", "Continue")
     # exhaustive model checking of the specification (repaired rules) on instances x configurations,
     # in slices of the configuration space so that every TLC run stays short
     cases = []
-    selmod = 4 * parts
+    selmod = (4 if ck.thorough else 8) * parts
     for part in range(parts):
         r = ck.tlc("MDA", consts(**base, **ex, selmod=selmod, selres=(part,), emit=part == 0) + spec,
                    workers=4, timeout=170, require_actions=acts if part == 0 else ())
